@@ -241,6 +241,13 @@ CHECKS = [
              "create/truncate) the restarted run finishes and returns bit-identical position and residuals, the same iteration counter "
              "and PRNG key (holds after fix 700b56c: last.pkl is replaced atomically).",
      "design_ref": "DESIGN.md 4/C24"},
+    {"property_id": "C35", "engine": "A", "category": "other", "technique": TECH_A + "; geometry (pixels, weights) is computed by the real constructors on concrete positions, the compiled sparse mat-vec is replaced by explicit sums over the operator's own COO triplets, the field is symbolic",
+     "note": NOTE_A + " Identities are decided as polynomial identities with a relative coefficient tolerance (1e-9; 1e-5 for the float32 LOS weights). NFFT/Gridder (ducc C++), nifty.re.extra.sampling_los, parallax LOS and symbolic positions are outside the claim; masks and zero padding are covered by C02.",
+     "text": "Bounded symbolic verification: LinearInterpolator (1-3 D; inside, on-grid, negative and wrapped positions) is exact for "
+             "multilinear functions with symbolic coefficients, periodic, reproduces constants and is adjoint-consistent; "
+             "RegriddingOperator interpolates linearly between the two bracketing source pixels; LOSResponse of a symbolic piecewise "
+             "constant field is the sum of pixel value x length of the line inside the pixel (axis-parallel and diagonal lines).",
+     "design_ref": "DESIGN.md 4/C35"},
 ]
 
 ALL = [f"C{i:02d}" for i in range(1, 37)]
